@@ -3,6 +3,7 @@
 import torch
 
 from linear_operator import settings
+from linear_operator.utils import _verif
 from linear_operator.utils.broadcasting import _pad_with_singletons
 
 
@@ -179,11 +180,16 @@ def minres(
             solution_norm,
         )
 
+        if _verif.ENABLED:
+            _verif.emit("minres.iter", i=i, solution=solution, max_iter=max_iter, rhs=rhs, shifts=shifts)
+
         # Check convergence criterion
         if (i + 1) % 10 == 0:
             torch.norm(search_update, dim=-2, out=search_update_norm)
             torch.norm(solution, dim=-2, out=solution_norm)
             conv = search_update_norm.div_(solution_norm).mean().item()
+            if _verif.ENABLED:
+                _verif.emit("minres.conv", i=i, conv=conv, tolerance=settings.minres_tolerance.value())
             if conv < settings.minres_tolerance.value():
                 break
 
@@ -202,6 +208,9 @@ def minres(
             search_prev2,
         )
         scale_prev, scale_curr = scale_curr, scale_prev
+
+    if _verif.ENABLED:
+        _verif.emit("minres.end", iterations=i + 1, max_iter=max_iter, rhs_norm=rhs_norm, rhs_is_zero=rhs_is_zero)
 
     # For rhs-s that are close to zero, set them to zero
     solution.masked_fill_(rhs_is_zero, 0)
